@@ -40,6 +40,8 @@ pub const SQLS: &[&str] = &[
     "drop table t",
     "select ---- x",
     "select 'é日本'",
+    "select '$__TEST_DIR__/a.csv', '$__NOW__'",
+    "select '$myvar' || '${myvar}' || '\\$'",
 ];
 
 pub fn gen_rows(r: &mut Rng, max_rows: usize, max_cols: usize) -> Vec<Vec<String>> {
@@ -210,6 +212,9 @@ fn error_expectation(r: &mut Rng, actual: Option<&str>, allow_inline: bool) -> (
 }
 
 pub struct Flags {
+    /// a record gets a deliberately random (mostly wrong) expectation with probability 1/wrong_den,
+    /// otherwise one that matches the scripted answer
+    pub wrong_den: usize,
     pub retry: bool,
     pub conds: bool,
     pub conns: bool,
@@ -219,7 +224,7 @@ pub struct Flags {
 }
 
 pub const LABELS: &[&str] = &["mock", "pg", "duck", "L"];
-pub const CONNS: &[&str] = &["default", "a", "A", "b", "c1"];
+pub const CONNS: &[&str] = &["default", "a", "A", "b", "c1", "Default", "DEFAULT", "B"];
 
 /// One random record as text; may add rules to the db. Returns the text (ending in a blank line).
 pub fn gen_record(r: &mut Rng, db: &mut DbScript, fl: &Flags, eff: &mut Eff) -> String {
@@ -234,6 +239,7 @@ pub fn gen_record(r: &mut Rng, db: &mut DbScript, fl: &Flags, eff: &mut Eff) -> 
         pre.push_str(&format!("connection {}\n", r.pick(CONNS)));
     }
     let retry = if fl.retry && r.chance(1, 6) { retry_clause(r) } else { String::new() };
+    let want_pass = !r.chance(1, fl.wrong_den);
     // fresh sql text per record so that its rule is its own (history-dependence comes from lists)
     let sql = format!("{} -- {}", r.pick(SQLS), db.rules.len());
     let sql = if sql.contains('\n') { sql.replace("\n", "\n ") } else { sql };
@@ -245,7 +251,20 @@ pub fn gen_record(r: &mut Rng, db: &mut DbScript, fl: &Flags, eff: &mut Eff) -> 
                 2 => Ans::Rows { types: "T".into(), rows: gen_rows(r, 3, 1) },
                 _ => Ans::Error(r.pick(ERR_TEXTS).to_string()),
             };
-            let (hdr, block) = match r.below(6) {
+            let (hdr, block) = if want_pass {
+                match &ans {
+                    Ans::Complete(n) if r.chance(1, 2) => (format!("count {}", n), String::new()),
+                    Ans::Rows { rows, .. } if r.chance(1, 2) => (format!("count {}", rows.len()), String::new()),
+                    Ans::Error(e) => {
+                        if r.chance(1, 2) || e.trim().is_empty() || e.contains("\n\n") {
+                            ("error".to_string(), String::new())
+                        } else {
+                            ("error".to_string(), format!("----\n{}\n\n", e.trim()))
+                        }
+                    }
+                    _ => ("ok".to_string(), String::new()),
+                }
+            } else { match r.below(6) {
                 0 | 1 => ("ok".to_string(), String::new()),
                 2 => {
                     let n = match &ans {
@@ -259,7 +278,7 @@ pub fn gen_record(r: &mut Rng, db: &mut DbScript, fl: &Flags, eff: &mut Eff) -> 
                     let actual = if let Ans::Error(e) = &ans { Some(e.as_str()) } else { None };
                     error_expectation(r, actual, retry.is_empty())
                 }
-            };
+            } };
             db.rules.push((sql.clone(), vec![ans]));
             format!("{}statement {}{}\n{}\n{}\n", pre, hdr, retry, sql, block)
         }
@@ -268,12 +287,12 @@ pub fn gen_record(r: &mut Rng, db: &mut DbScript, fl: &Flags, eff: &mut Eff) -> 
             let rows = gen_rows(r, 4, 3);
             let ncols = rows.first().map(|x| x.len()).unwrap_or(1);
             let dbtypes = types_for(r, ncols);
-            let ans = match r.below(8) {
-                0 => Ans::Complete(r.below(3) as u64),
+            let ans = match r.below(if want_pass { 1 } else { 8 }) {
+                0 if !want_pass => Ans::Complete(r.below(3) as u64),
                 1 => Ans::Error(r.pick(ERR_TEXTS).to_string()),
                 _ => Ans::Rows { types: dbtypes.clone(), rows: rows.clone() },
             };
-            if r.chance(1, 5) {
+            if !want_pass && r.chance(1, 5) {
                 let actual = if let Ans::Error(e) = &ans { Some(e.as_str()) } else { None };
                 let (hdr, block) = error_expectation(r, actual, retry.is_empty());
                 db.rules.push((sql.clone(), vec![ans]));
@@ -284,9 +303,11 @@ pub fn gen_record(r: &mut Rng, db: &mut DbScript, fl: &Flags, eff: &mut Eff) -> 
             let eff_sort = sort.or(eff.sort);
             let mut lines = reference_lines(&rows, eff_sort, eff.valuewise, eff.threshold);
             fix_empty_lines(&mut lines);
-            mutate_lines(r, &mut lines);
+            if !want_pass {
+                mutate_lines(r, &mut lines);
+            }
             let nt = r.range(1, 3);
-            let types = if r.chance(3, 4) { dbtypes.clone() } else { types_for(r, nt) };
+            let types = if want_pass || r.chance(3, 4) { dbtypes.clone() } else { types_for(r, nt) };
             db.rules.push((sql.clone(), vec![ans]));
             let mut o = format!(
                 "{}query {}{}{}{}\n{}\n----\n",
@@ -308,17 +329,18 @@ pub fn gen_record(r: &mut Rng, db: &mut DbScript, fl: &Flags, eff: &mut Eff) -> 
             // system
             let cmd = format!("{} # {}", r.pick(&["echo hi", "cat f", "false", "printf 'a\\nb'"]), db.cmd_rules.len());
             let out = r.pick(&["hi\n", "a\nb", "", "  padded \n\n", "x\n\n\ny\n"]).to_string();
-            let ans = match r.below(5) {
-                0 => CmdAns::Exit { code: r.range(1, 3) as i32, stdout: out.clone() },
+            let ans = match r.below(if want_pass { 1 } else { 5 }) {
+                0 if !want_pass => CmdAns::Exit { code: r.range(1, 3) as i32, stdout: out.clone() },
                 1 if false => CmdAns::SpawnErr,
                 _ => CmdAns::Exit { code: 0, stdout: out.clone() },
             };
             db.cmd_rules.push((cmd.clone(), vec![ans]));
-            let block = match r.below(4) {
+            let block = match r.below(if want_pass { 3 } else { 4 }) {
                 0 | 1 => String::new(),
                 2 if !out.trim().is_empty() && !out.trim().contains("\n\n") => {
                     format!("----\n{}\n\n", out.trim())
                 }
+                _ if want_pass => String::new(),
                 _ => "----\nother\n\n".to_string(),
             };
             format!("{}system ok{}\n{}\n{}\n", pre, retry, cmd, block)
@@ -374,7 +396,7 @@ pub fn gen_c01(r: &mut Rng) -> ScriptCase {
     for _ in 0..r.below(3) {
         text.push_str(&gen_control(r, &mut eff));
     }
-    let fl = Flags { retry: false, conds: false, conns: false, controls: true, system: true, misc: false };
+    let fl = Flags { wrong_den: 2, retry: false, conds: false, conns: false, controls: true, system: true, misc: false };
     text.push_str(&gen_record(r, &mut db, &fl, &mut eff));
     ScriptCase { strict_cols: r.chance(1, 2), threshold, text, db, tag: "c01".into(), ..Default::default() }
 }
@@ -386,7 +408,7 @@ pub fn gen_c02(r: &mut Rng) -> ScriptCase {
     let mut text = String::new();
     let n = r.range(1, 12);
     let halt_at = if r.chance(1, 4) { Some(r.below(n)) } else { None };
-    let fl = Flags { retry: true, conds: true, conns: true, controls: true, system: true, misc: true };
+    let fl = Flags { wrong_den: 7, retry: true, conds: true, conns: true, controls: true, system: true, misc: true };
     for i in 0..n {
         if Some(i) == halt_at {
             text.push_str("halt\n\n");
@@ -412,7 +434,8 @@ pub fn gen_c02(r: &mut Rng) -> ScriptCase {
             text.pop();
         }
     }
-    ScriptCase { strict_cols: r.chance(1, 4), threshold: 0, labels, text, db, tag: "c02".into(), ..Default::default() }
+    let locals = if r.chance(1, 2) { vec![("myvar".to_string(), "LOCAL".to_string())] } else { vec![] };
+    ScriptCase { strict_cols: r.chance(1, 4), threshold: 0, labels, locals, text, db, tag: "c02".into(), ..Default::default() }
 }
 
 /// C09: retry N (1..=maxn), outcome bit-vector `bits` (bit i = attempt i passes), record kind k
@@ -495,6 +518,7 @@ pub fn gen_c10(
     fsort: Option<&'static str>,
     valuewise: bool,
     permkind: &str,
+    threshold: usize,
 ) -> ScriptCase {
     let mut db = DbScript { engine: "mock".into(), ..Default::default() };
     let mut text = String::new();
@@ -505,7 +529,7 @@ pub fn gen_c10(
         text.push_str("control resultmode valuewise\n\n");
     }
     let eff = qsort.or(fsort);
-    let mut lines = reference_lines(rows, eff, valuewise, 0);
+    let mut lines = reference_lines(rows, eff, valuewise, threshold);
     fix_empty_lines(&mut lines);
     let ncols = rows.first().map(|r| r.len()).unwrap_or(1);
     db.rules.push((
@@ -522,7 +546,13 @@ pub fn gen_c10(
         text.push('\n');
     }
     text.push('\n');
-    ScriptCase { text, db, tag: format!("c10 q={:?} f={:?} vw={} perm={}", qsort, fsort, valuewise, permkind), ..Default::default() }
+    ScriptCase {
+        threshold,
+        text,
+        db,
+        tag: format!("c10 q={:?} f={:?} vw={} perm={} thr={}", qsort, fsort, valuewise, permkind, threshold),
+        ..Default::default()
+    }
 }
 
 /// C11: guards (list of (is_onlyif, label)), label subset, kind, engine name set or empty
